@@ -76,6 +76,7 @@ def main(tier):
                 "Instant(%d ns).epoch_milliseconds() = %s, floor(ns / 10^6) = %d" % (ns, got[1], ns // 1_000_000), h.loc)
     from ..rules import extra as _extra
     _extra.check_duration_field_tables(run, fx)
+    _extra.check_seconds_subseconds(run, fx)
     units.report(run, fx, "C06")
     ranges.check_balance(run, fx)
     return run.finish(EXPLANATION)
